@@ -8,6 +8,8 @@ import (
 	"math/rand"
 	"os"
 	"sort"
+
+	"jkverif/chain"
 )
 
 type Finding struct {
@@ -112,6 +114,22 @@ func RunCase(p *Prop, seed int64, idx int, tier string, verbose bool) (res CaseR
 				panic(r)
 			}
 		}
+	}()
+	// node-restart injection (chain.RestartProb): in every fourth case each Commit is followed with probability 0.2 by a
+	// restart of the node on the same database. Unobservable for correct code; exposes results that depend on what an
+	// instance remembers outside the store.
+	chain.RestartProb, chain.RestartRng = 0, nil
+	if idx%4 == 3 {
+		chain.RestartProb = 0.2
+		chain.RestartRng = rand.New(rand.NewSource(seed*7_368_787 + int64(idx)*104_729 + 5))
+		rc.Logf("node restarts are injected in this case (probability 0.2 per Commit)")
+	}
+	r0 := chain.Restarts
+	defer func() {
+		if n := chain.Restarts - r0; n > 0 {
+			rc.Count("node_restarts_injected", n)
+		}
+		chain.RestartProb, chain.RestartRng = 0, nil
 	}()
 	p.Run(rc)
 	return res
